@@ -73,6 +73,21 @@ def grid_items(rng, npool, nrand, bitpos=True):
             add(o, 0, [["local.get", 0], ["local.get", 1], ["%s.%s" % (t, o)], ["end"]], 2)
         for o in IREL:
             add(o, 1, [["local.get", 0], ["local.get", 1], ["%s.%s" % (t, o)], ["end"]], 2)
+        # operands that are boundary values of a NARROWER width, sign- and zero-extended (a fast path for "small" operands
+        # has its own INT_MIN / -1 and its own carries): every pair of them, for every binary operator
+        M_ = (1 << bits) - 1
+        NB = []
+        for w in ((8, 16) if bits == 32 else (16, 32)):
+            NB += [(-(1 << (w - 1))) & M_, (-(1 << (w - 1)) - 1) & M_, (-(1 << (w - 1)) + 1) & M_, 1 << (w - 1), (1 << (w - 1)) - 1,
+                   (1 << w) - 1, 1 << w, (1 << w) + 1, (-(1 << w)) & M_]
+        NB += [M_, 0, 1, 1 << (bits - 1), 3, (-3) & M_]
+        NB = list(dict.fromkeys(NB))
+        inP = set(P)
+        for o in IBIN + IREL:
+            for a in NB:
+                for b in NB:
+                    if not (a in inP and b in inP):
+                        calls.append({"op": "call", "inst": 1, "export": o, "args": [val(t, a), val(t, b)]})
         for o in IUN[t]:
             add(o, 3 if o == "eqz" else 2, [["local.get", 0], ["%s.%s" % (t, o)], ["end"]], 1)
         # an operand that is an immediate, on either side (constant operands invite special-casing in a translator)
@@ -133,6 +148,28 @@ def grid_items(rng, npool, nrand, bitpos=True):
     for j in range(0, len(calls2), 400):
         items.append({"id": "gpair_%d" % (j // 400), "module": mod2,
                       "script": [{"op": "instantiate", "binds": {"mem": 0, "table": 0, "globals": []}}] + calls2[j:j + 400]})
+    # a bit-count result consumed in the same function by something a compiler can decide from the range it assumes for the
+    # result (0..width-1 if it takes the operand to be non-zero): shifted, compared with the width, used as a shift count, as an index
+    for t, bits in (("i32", 32), ("i64", 64)):
+        ck = lambda x: [t + ".const", list((x & M_ALL[t]).to_bytes(bits // 8, "little"))]
+        tyu = [{"p": [t], "r": [t]}, {"p": [t], "r": ["i32"]}]
+        fs, ex, cl = [], [], []
+        shapes = {"shr5": (0, [[t + ".shr_u"]], bits.bit_length() - 1), "eqw": (1, [[t + ".eq"]], bits), "ltw": (1, [[t + ".lt_u"]], bits),
+                  "gew": (1, [[t + ".ge_u"]], bits), "andw": (0, [[t + ".and"]], bits), "subw": (0, [[t + ".sub"]], bits)}
+        for o in ("clz", "ctz", "popcnt"):
+            for sh, (ty_, tail, k_) in shapes.items():
+                fs.append({"type": ty_, "locals": [], "body": [["local.get", 0], ["%s.%s" % (t, o)], ck(k_)] + tail + [["end"]]})
+                ex.append({"name": "%s_%s" % (o, sh), "kind": "func", "idx": len(fs) - 1})
+            # as a shift count and as a selector
+            fs.append({"type": 0, "locals": [], "body": [ck(1), ["local.get", 0], ["%s.%s" % (t, o)], [t + ".shl"], ["end"]]})
+            ex.append({"name": "%s_shcount" % o, "kind": "func", "idx": len(fs) - 1})
+            fs.append({"type": 1, "locals": [], "body": [["i32.const", [7, 0, 0, 0]], ["i32.const", [9, 0, 0, 0]], ["local.get", 0], ["%s.%s" % (t, o)], ck(bits), [t + ".ne"], ["select"], ["end"]]})
+            ex.append({"name": "%s_sel" % o, "kind": "func", "idx": len(fs) - 1})
+        for e_ in ex:
+            for x in (0, 1, M_ALL[t], 1 << (bits - 1), 2, 0x10, 1 << (bits // 2), 0xFFFF):
+                cl.append({"op": "call", "inst": 1, "export": e_["name"], "args": [val(t, x)]})
+        items.append({"id": "gcons_" + t, "module": {"types": tyu, "funcs": fs, "exports": ex},
+                      "script": [{"op": "instantiate", "binds": {"mem": 0, "table": 0, "globals": []}}] + cl})
     # width-changing instructions
     P32, P64 = pool(32, rng, npool + nrand, 0), pool(64, rng, npool + nrand, 0)
     mod = {"types": [{"p": ["i64"], "r": ["i32"]}, {"p": ["i32"], "r": ["i64"]}],
@@ -180,6 +217,8 @@ def main():
               {"name": "gcc-O1-nobuiltin", "cc": "gcc", "cflags": ("-O1", "-D__has_builtin(x)=0")}]
     # clang selects other builtins than gcc in the runtime header
     builds.append({"name": "clang-O2", "cc": "clang", "cflags": ("-O2",)})
+    # for this very machine (whatever instruction-set extensions it has: lzcnt, bmi, popcnt, ... select other code paths)
+    builds.append({"name": "gcc-O2-native", "cc": "gcc", "cflags": ("-O2", "-march=native")})
     if tier != "quick":
         builds.append({"name": "clang-O0-nobuiltin", "cc": "clang", "cflags": ("-O0", "-D__has_builtin(x)=0")})
     st, exp = machine.replay(v, items, builds, sigfn=sig)
